@@ -766,6 +766,11 @@ func (p *Parser) evaluateImports(ctx context) ([]Statement, error) {
 	}
 	statements := []Statement{}
 
+	// A file that is reached along several import paths is defined once: the names of its definitions
+	// carry the hash of its content, whether they are public or not.
+	definedVariables := map[string]bool{}
+	definedFunctions := map[string]bool{}
+
 	// Add functions add variables.
 	for _, statement := range statementsTemp {
 		exists := false
@@ -776,16 +781,20 @@ func (p *Parser) evaluateImports(ctx context) ([]Statement, error) {
 
 			for _, variable := range definedVariable.Variables() {
 				name := variable.Name()
+				exists = definedVariables[name]
+				definedVariables[name] = true
 
-				if _, exists = ctx.variables[name]; !exists && variable.Public() {
+				if _, known := ctx.variables[name]; !known && variable.Public() {
 					ctx.variables[name] = variable
 				}
 			}
 		case STATEMENT_TYPE_FUNCTION_DEFINITION:
 			definedFunction := statement.(FunctionDefinition)
 			name := definedFunction.Name()
+			exists = definedFunctions[name]
+			definedFunctions[name] = true
 
-			if _, exists = ctx.functions[name]; !exists && definedFunction.Public() {
+			if _, known := ctx.functions[name]; !known && definedFunction.Public() {
 				ctx.functions[name] = definedFunction
 			}
 		}
